@@ -1388,3 +1388,47 @@ Proof.
   - rewrite (prop_rewrite_args key a H). split; [reflexivity|apply tag_value_part_ph_args, H].
 Qed.
 
+
+(* ---- the shape of the conversion (for c17_prefix_exact) ------------------------------------------------------ *)
+
+Lemma embed_null : forall T, embed T VNull = None.
+Proof. destruct T; reflexivity. Qed.
+
+Lemma bind_prefix_nonnull : forall v T, v <> VNull -> bind_prefix v T = decode_weak v T.
+Proof. intros v T H. destruct v; try reflexivity. congruence. Qed.
+
+Theorem embed_bind_prefix : forall T v f, embed T v = Some f -> bind_prefix v T = Ok f.
+Proof.
+  intros T v f H. rewrite bind_prefix_nonnull; [now apply embed_decode|].
+  intros ->. rewrite embed_null in H. discriminate.
+Qed.
+
+Definition decode_field (kvs : list (bytes * cval)) (nt : bytes * ftype) : res (bytes * fval) :=
+  rmap (fun x => (fst nt, x))
+       (match field_lookup (fst nt) kvs with
+        | Some fv => decode_weak fv (snd nt)
+        | None => Ok (zero_of (snd nt))
+        end).
+
+Lemma decode_struct_eq : forall kvs fs,
+  decode_weak (VMap kvs) (TStruct fs) = rmap FStruct (res_all (map (decode_field kvs) fs)).
+Proof.
+  intros kvs fs. unfold decode_weak. cbn [dw]. f_equal.
+  induction fs as [|[n t] fs IH]; [reflexivity|].
+  cbn [map res_all]. rewrite <- IH. unfold decode_field, decode_weak. cbn [fst snd].
+  destruct (field_lookup n kvs) as [fv|]; [destruct (dw t fv)|]; reflexivity.
+Qed.
+
+Theorem decode_shape :
+  (forall l T, decode_weak (VList l) (TSlice T) = rmap FSlice (res_all (map (fun x => decode_weak x T) l))) /\
+  (forall kvs T, decode_weak (VMap kvs) (TMap T) =
+     rmap (fun l => FMap (fmap_of l))
+          (res_all (map (fun kv : bytes * cval => rmap (fun x => (fst kv, x)) (decode_weak (snd kv) T)) kvs))) /\
+  (forall kvs fs, decode_weak (VMap kvs) (TStruct fs) = rmap FStruct (res_all (map (decode_field kvs) fs))) /\
+  (forall v T, v <> VNull -> decode_weak v (TPtr T) = rmap FPtr (decode_weak v T)) /\
+  (forall T, decode_weak VNull T = Ok (zero_of T)).
+Proof.
+  split; [reflexivity|]. split; [reflexivity|]. split; [exact decode_struct_eq|].
+  split; [intros v T H; destruct v; try reflexivity; congruence|].
+  intros T. destruct T; reflexivity.
+Qed.
